@@ -8,6 +8,29 @@ import boolalg as B
 from core import show
 
 
+def _reads_of(body, local):
+    """blocks in which the local is read (as an operand, a switch discriminant, or through a borrow)"""
+    out = set()
+
+    def scan(x):
+        if isinstance(x, dict):
+            if "l" in x and "pr" in x:
+                return x["l"] == local
+            return any(scan(v) for v in x.values())
+        if isinstance(x, list):
+            return any(scan(v) for v in x)
+        return False
+    for i in body.reach:
+        blk = body.blocks[i]
+        for st in blk["stmts"]:
+            if st["k"] == "assign" and scan(st["rv"]):
+                out.add(i)
+        t = blk["term"]
+        if t and any(scan(v) for k, v in t.items() if k != "dest"):
+            out.add(i)
+    return out
+
+
 class Unanalysable(Exception):
     pass
 
@@ -195,6 +218,7 @@ class Summ:
             return r
         self._ret[body.path] = None
         parts = []
+        self._ret_exits(body, S.def_table(body, 0))
         for bb, v in S.def_table(body, 0):
             g = self.guard(body, bb)
             if v[0] == "const" and v[1] == "bool":
@@ -205,6 +229,27 @@ class Summ:
         r = B.Or(*parts)
         self._ret[body.path] = r
         return r
+
+    def _ret_exits(self, body, defs):
+        """`returns true iff some element ...` is order-free only if the answers given from inside a loop agree: a loop that can answer `false`
+        (or a computed value) for one element and `true` for another answers by whichever comes first"""
+        body.guards()
+        trivial = getattr(body, "trivial_switches", set())
+        for h, blocks in sorted(body.loops.items()):
+            normal = [t for x in blocks for (t, lab) in body.succ[x] if t not in blocks and lab is not None and lab[0] in trivial]
+            inside = []
+            for bb, v in defs:
+                if bb in blocks or not body.reaches_acyclic(h, bb):
+                    continue
+                if any(t == bb or body.reaches_acyclic(t, bb) for t in normal):
+                    continue  # after the loop has run out
+                inside.append((bb, v))
+            may_false = [d for d in inside if not (d[1][0] == "const" and d[1][1] == "bool" and d[1][2])]
+            may_true = [d for d in inside if not (d[1][0] == "const" and d[1][1] == "bool" and not d[1][2])]
+            if may_false and may_true:
+                raise Unanalysable("%s answers from inside the loop at line %d with a value that can be false (line %d) and one that can be true (line %d): "
+                                   "the first element that answers decides, later ones are never examined"
+                                   % (body.path, body.blocks[h]["tloc"]["line"], body.blocks[may_false[0][0]]["tloc"]["line"], body.blocks[may_true[0][0]]["tloc"]["line"]))
 
     @staticmethod
     def _float_cmp(t):
@@ -243,6 +288,7 @@ class Summ:
             self._flag[key] = r
             return r
         r = B.Or(*[self.guard(body, bb) for bb in trues])
+        self._flag_exits(body, local, trues, falses)
         # "some iteration set the flag": the loop elements mentioned are bound by the flag, not by the reader's position
         inner = set()
         for bb in trues:
@@ -266,6 +312,40 @@ class Summ:
         r = self.tag_elems(r, ("tag-flag", body.path, local), only_loops=(body, inner, trues))
         self._flag[key] = r
         return r
+
+    def _flag_exits(self, body, local, trues, falses):
+        """`flag := some iteration set it` is order-free only if the loop looks at every element, or stops looking only once the flag is set: an
+        early way out of a loop that (re)sets the flag in other iterations, taken on a path of its iteration that has not set the flag, and after
+        which the flag is still read, makes the flag depend on what came before the element that would have set it"""
+        reads = _reads_of(body, local)
+        body.guards()
+        trivial = getattr(body, "trivial_switches", set())
+        for h, blocks in sorted(body.loops.items()):
+            if not any(t in blocks for t in trues) or any(f in blocks for f in falses):
+                continue  # not a loop whose iterations accumulate into the flag (the flag is per-iteration state of it, or is not set in it)
+            for x in sorted(blocks):
+                for (t, lab) in body.succ[x]:
+                    if t in blocks or (lab is not None and lab[0] in trivial):
+                        continue
+                    if not any(t == rb or body.reaches_acyclic(t, rb) for rb in reads):
+                        continue  # leaves towards a place where the flag no longer matters
+                    # is x reachable from the loop head inside one iteration without passing a block that sets the flag?
+                    seen, work = set(), [h]
+                    hit = False
+                    while work:
+                        y = work.pop()
+                        if y in seen or y in trues:
+                            continue
+                        seen.add(y)
+                        if y == x:
+                            hit = True
+                            break
+                        for (z, _l) in body.succ[y]:
+                            if z in blocks and z != h:
+                                work.append(z)
+                    if hit:
+                        raise Unanalysable("the loop that sets `%s` (%s) is left early at line %d on a path that has not set it: elements after that point are never examined"
+                                           % (body.locals[local].get("name") or "_%d" % local, body.path, body.blocks[x]["tloc"]["line"]))
 
     def tag_elems(self, f, tag, only_loops=None):
         """rename the element variables bound by loops of the expanded predicate / flag"""
